@@ -128,6 +128,26 @@ fn main() {
     let seed: u64 = std::env::var("VERIF_SEED").ok().and_then(|v| v.parse().ok()).unwrap_or(1);
     let n: u64 = std::env::var("MIRROR_CASES").ok().and_then(|v| v.parse().ok()).unwrap_or(300);
     let mut rng = Rng(seed.wrapping_mul(0xA24BAED4963EE407));
+    // ---- diagnostics name the upstream trait: an unmocked required method of a mirrored trait panics as `<Trait>::<method>(..)`
+    {
+        let named = |f: &dyn Fn(&mut Unimock)| -> String {
+            let mut u = Unimock::new(()).no_verify_in_drop();
+            match std::panic::catch_unwind(std::panic::AssertUnwindSafe(|| f(&mut u))) {
+                Ok(()) => "<no panic>".to_string(),
+                Err(p) => p.downcast_ref::<String>().cloned().unwrap_or_default().split(['(', ' ']).next().unwrap_or("").trim_end_matches(':').to_string(),
+            }
+        };
+        emit("name.Debug", named(&|u| { let _ = format!("{:?}", u); }), "Debug::fmt".into());
+        emit("name.Display", named(&|u| { let _ = format!("{}", u); }), "Display::fmt".into());
+        emit("name.Hasher.finish", named(&|u| { let _ = Hasher::finish(u); }), "Hasher::finish".into());
+        emit("name.Hasher.write", named(&|u| { Hasher::write(u, b"x"); }), "Hasher::write".into());
+        emit("name.Read", named(&|u| { let _ = Read::read(u, &mut [0u8; 2]); }), "Read::read".into());
+        emit("name.Write.write", named(&|u| { let _ = Write::write(u, b"x"); }), "Write::write".into());
+        emit("name.Write.flush", named(&|u| { let _ = Write::flush(u); }), "Write::flush".into());
+        emit("name.BufRead.fill_buf", named(&|u| { let _ = BufRead::fill_buf(u); }), "BufRead::fill_buf".into());
+        emit("name.BufRead.consume", named(&|u| { BufRead::consume(u, 1); }), "BufRead::consume".into());
+        emit("name.Seek", named(&|u| { let _ = Seek::seek(u, SeekFrom::Start(0)); }), "Seek::seek".into());
+    }
     for k in 0..n {
       let mut rng_iter = Rng(rng.next());
       let res_iter = std::panic::catch_unwind(std::panic::AssertUnwindSafe(|| {
